@@ -234,6 +234,183 @@ func c03(c *Ctx) {
 	c.c03NickIndex()
 	c.c03ServerSessions()
 	c.c03ModeLoops(marshal, unmarshal)
+	c.c03TriState(marshal, unmarshal)
+	c.c03NoFilter(marshal, unmarshal)
+}
+
+// c03TriState (K6): where the reader special-cases an enum's zero value (legacy "unset" inference), the writer never emits it.
+func (c *Ctx) c03TriState(marshal, unmarshal *load.FuncInfo) {
+	r := c.R
+	wi, ri := marshal.Info(), unmarshal.Info()
+	// enum-typed pb fields switched on in the reader with a case for the zero constant
+	special := map[*types.Var]bool{}
+	ast.Inspect(unmarshal.Body(), func(n ast.Node) bool {
+		sw, ok := n.(*ast.SwitchStmt)
+		if !ok || sw.Tag == nil {
+			return true
+		}
+		se, ok := ast.Unparen(sw.Tag).(*ast.SelectorExpr)
+		if !ok {
+			return true
+		}
+		f := astx.FieldSel(ri, se)
+		if f == nil || f.Pkg() == nil || f.Pkg().Path() != pathProto {
+			return true
+		}
+		for _, cl := range sw.Body.List {
+			for _, e := range cl.(*ast.CaseClause).List {
+				if v, ok := astx.ConstInt(ri, e); ok && v == 0 {
+					special[f] = true
+				}
+			}
+		}
+		return true
+	})
+	n := 0
+	for _, cl := range compositeLitsOfAny(wi, marshal.Body(), pathProto) {
+		for _, el := range cl.Elts {
+			kv, ok := el.(*ast.KeyValueExpr)
+			if !ok {
+				continue
+			}
+			id, ok := kv.Key.(*ast.Ident)
+			if !ok {
+				continue
+			}
+			f, _ := wi.Uses[id].(*types.Var)
+			if f == nil || !special[f] {
+				continue
+			}
+			n++
+			// every definition of the written value is a non-zero constant
+			okAll := true
+			defs := []ast.Expr{kv.Value}
+			if vid, ok := ast.Unparen(kv.Value).(*ast.Ident); ok {
+				if o := astx.Obj(wi, vid); o != nil {
+					if _, isConst := o.(*types.Const); !isConst {
+						defs = defsOf(wi, marshal.Node(), o)
+					}
+				}
+			}
+			for _, d := range defs {
+				if d == nil {
+					okAll = false // zero-value declaration
+					continue
+				}
+				v, ok := astx.ConstInt(wi, d)
+				if !ok || v == 0 {
+					okAll = false
+				}
+			}
+			r.Check(okAll && len(defs) > 0, "C03.K6", marshal.Name(), "never writes the legacy 'unset' value of "+f.Name(), c.P.Pos(kv.Pos()), "all definitions are non-zero constants",
+				"the writer can emit the zero ('unset') value of "+f.Name()+", for which the reader falls back to a legacy inference: the loaded value differs from the saved one (e.g. a session that is not logged in yet is restored as logged in)")
+		}
+	}
+	if len(special) > 0 {
+		r.Check(n > 0, "C03.K6", marshal.Name(), "tri-state fields written", c.P.Pos(marshal.Node().Pos()), "found", "a field the reader special-cases for its zero value is not written by a literal key")
+	}
+}
+
+func compositeLitsOfAny(info *types.Info, root ast.Node, pkgpath string) []*ast.CompositeLit {
+	var out []*ast.CompositeLit
+	ast.Inspect(root, func(n ast.Node) bool {
+		if cl, ok := n.(*ast.CompositeLit); ok {
+			if tv, ok := info.Types[cl]; ok {
+				if nn := astx.NamedOf(tv.Type); nn != nil && nn.Obj().Pkg() != nil && nn.Obj().Pkg().Path() == pkgpath {
+					out = append(out, cl)
+				}
+			}
+		}
+		return true
+	})
+	return out
+}
+
+// c03NoFilter (K7): loops that copy a state collection copy every element: no continue/break, and the element is
+// emitted unconditionally (or under a condition that is the element's own boolean value).
+func (c *Ctx) c03NoFilter(marshal, unmarshal *load.FuncInfo) {
+	r := c.R
+	derived := map[string]bool{"nicks": true, "serverSessions": true}
+	for _, fi := range []*load.FuncInfo{marshal, unmarshal} {
+		info := fi.Info()
+		ast.Inspect(fi.Body(), func(n ast.Node) bool {
+			rs, ok := n.(*ast.RangeStmt)
+			if !ok {
+				return true
+			}
+			// only loops over struct fields (state or snapshot collections)
+			if _, isSel := ast.Unparen(rs.X).(*ast.SelectorExpr); !isSel {
+				return true
+			}
+			what := "copy loop over " + astx.Str(rs.X)
+			pos := c.P.Pos(rs.Pos())
+			// no branch statements belonging to this loop
+			bad := ""
+			var walk func(list []ast.Stmt, cond ast.Expr)
+			emits := 0
+			walk = func(list []ast.Stmt, cond ast.Expr) {
+				for _, st := range list {
+					switch x := st.(type) {
+					case *ast.BranchStmt:
+						if x.Tok == token.CONTINUE || x.Tok == token.BREAK {
+							bad = "a " + x.Tok.String() + " skips elements"
+						}
+					case *ast.IfStmt:
+						walk(x.Body.List, x.Cond)
+						if els, ok := x.Else.(*ast.BlockStmt); ok {
+							walk(els.List, x.Cond)
+						}
+					case *ast.AssignStmt:
+						emit := false
+						for i, l := range x.Lhs {
+							// out = append(out, …)  /  out[k] = …  /  i.field[k] = …
+							if len(x.Rhs) == len(x.Lhs) {
+								if call, ok := ast.Unparen(x.Rhs[i]).(*ast.CallExpr); ok && astx.Builtin(info, call) == "append" {
+									emit = true
+									if se, ok := ast.Unparen(l).(*ast.SelectorExpr); ok && derived[se.Sel.Name] {
+										emit = false
+									}
+								}
+							}
+							if ie, ok := ast.Unparen(l).(*ast.IndexExpr); ok {
+								if _, isArr := info.TypeOf(ie.X).Underlying().(*types.Array); !isArr {
+									emit = true
+									if se, ok := ast.Unparen(ie.X).(*ast.SelectorExpr); ok && derived[se.Sel.Name] {
+										emit = false
+									}
+								}
+							}
+						}
+						if emit {
+							emits++
+							if cond != nil {
+								// allowed: the condition is the range value itself (a boolean element)
+								okCond := false
+								if id, ok := ast.Unparen(cond).(*ast.Ident); ok && rs.Value != nil {
+									if vid, ok := rs.Value.(*ast.Ident); ok && astx.Obj(info, id) == astx.Obj(info, vid) {
+										okCond = true
+									}
+								}
+								if !okCond {
+									bad = "the element is emitted only under " + astx.Str(cond)
+								}
+							}
+						}
+					case *ast.RangeStmt, *ast.ForStmt:
+						// nested loops are judged on their own
+					}
+				}
+			}
+			walk(rs.Body.List, nil)
+			if emits == 0 {
+				return true
+			}
+			r.Check(bad == "", "C03.K7", fi.Name(), what+" copies every element", pos, "no continue/break, unconditional emit",
+				"the "+what+" filters elements ("+bad+"): part of the state is missing after save + load")
+			return true
+		})
+	}
+	r.Floor("C03.K7", 10)
 }
 
 func converterApplies(t types.Type, w string) bool {
